@@ -134,3 +134,20 @@ Example C16_ex_silent_outside_region : winsort 9 [Pl 5 0; Pl 3 1; Pl 7 2] = Some
 Proof. exact silent_outside_region. Qed.
 Example C16_ex_silent_unterminated : winsort 9 [Pl 5 0; Rs 6 1; Pl 3 2; Pl 4 3] = Some [Pl 5 0; Rs 6 1; Pl 3 2; Pl 4 3].
 Proof. exact silent_unterminated. Qed.
+
+(* ---- the sort order is ovnisort.c:cmp_ev as translated from the C source.
+   Translator unit cmp_winsort regenerates coq/Gen/Cmp_winsort_gen.v on every run: the comparison is
+   Gallina translated from the C AST; the statements that read the two clocks (as uint64_t: the
+   defect repaired by /repo f327c17 read them as int64_t) are pinned as text. *)
+From OV Require Gen.Cmp_winsort_gen Proofs.CmpWinsortProofs.
+
+Theorem C16_sort_order_from_source : forall l, isort_by clock l = CmpWinsortProofs.isort_by_src l.
+Proof. exact CmpWinsortProofs.isort_by_clock_from_source. Qed.
+Print Assumptions C16_sort_order_from_source.
+
+(* equal clocks compare equal, so a stable qsort keeps their relative order; otherwise the sign follows the clocks *)
+Theorem C16_cmp_ev_three_way : forall a b,
+  Cmp_winsort_gen.cmp_ev_core a b = CmpPre.cmp3 a b /\ (Cmp_winsort_gen.cmp_ev_core a b = 0 <-> a = b).
+Proof. exact (fun a b => conj (CmpWinsortProofs.cmp_ev_core_cmp3 a b) (CmpWinsortProofs.cmp_ev_core_eq a b)). Qed.
+Print Assumptions C16_cmp_ev_three_way.
+
